@@ -465,7 +465,7 @@ impl Property for C06 {
     fn budget(&self, tier: Tier) -> (u32, usize) {
         match tier {
             Tier::Quick => (150_000, 8),
-            Tier::Thorough => (3_000_000, 16),
+            Tier::Thorough => (6_000_000, 16),
         }
     }
     fn run(&self, case: &TlCase) -> Report {
